@@ -1,7 +1,5 @@
 #![no_main]
-// The oracle lives in the harness (vh::fuzz::wire_request); a violation aborts with its message.
+// The oracle lives in the harness (vh::fuzz::wire_request); a violation or an escaping panic aborts.
 libfuzzer_sys::fuzz_target!(|data: &[u8]| {
-    if let Err(msg) = vh::fuzz::wire_request(data) {
-        panic!("PROPERTY VIOLATION: {msg}");
-    }
+    vh::fuzz::guarded("wire_request", data);
 });
